@@ -16,6 +16,22 @@ CHECKS = {
    technique="bounded-exhaustive enumeration of DER primitive values, write then read on the real code, identity + exact consumption oracle",
    text="Every length 0..300, +-2 (quick) / +-300 (thorough) around every 2^(7k), 2^(8k) and u64::MAX; every tag of 4 classes x numbers 0..30 as raw identifier and as the tag of a BOOLEAN and an INTEGER TLV; all 8 Rust integer types at their boundary families; BOOLEAN with the value octet set to every 0..255; every index of ENUMERATED types with 1..70000 items: written with the real DER writer, read with the real DER reader from the exact buffer and from the buffer followed by 3 sentinel bytes. Exhaustive inside these sets.",
    note="Oracle is identity + exact byte consumption as the statement says; minimal/canonical DER form is not demanded (the writer's INTEGER content is not minimal two's complement - outside the statement)."),
+ "C01": dict(engine="e_uper", category="model_checking", design="5/C01",
+   technique="bounded-exhaustive enumeration of (generated type, value, start alignment) on the real generated codecs + explicit-state BFS over histories of messages in one real writer/reader, exact state dedup on the writer's bits",
+   text="Every type of the compiled zoo (699 types quick / 4332 thorough: every leaf constraint form of Appendix C, all SEQUENCE/SET shapes with <=3 (<=5) components, containers, the C16 permutations) x every value of its boundary domain (sizes up to 17000 + {65536, 81920} quick, up to 200000 thorough) x every start alignment 0..7 is encoded with the real generated encoder into a pre-loaded writer and decoded again: equal value, 0 bits remaining, earlier bits untouched, encoding independent of the alignment. Histories: BFS over all sequences of <=3 (<=4) messages from a 12-message alphabet written into ONE real writer (content must equal the concatenation of the single encodings in every state) and read back in order from ONE reader.",
+   note="The zoo types are produced by the real front end + generator + #[asn] macro at build time (zoo parts' build.rs); value domains are boundary sets, not all values. Known finding KF-Q-NO-FRAG (lists/char strings >= 16K items do not round trip) is selected by schema+value features."),
+ "C02": dict(engine="e_uper", category="model_checking", design="4, 5/C02, Appendix A",
+   technique="bounded-exhaustive enumeration of (schema, value) on the real generated codecs, compared bit for bit with refper - an independent X.691 reference encoder - in both directions; recorded defects are matched by executable quirk models",
+   text="For every zoo type x value: writer(v) == refper(S, v) bit for bit (first differing labelled X.691 field reported) and reader(refper(S, v)) == v with 0 bits remaining. refper itself is re-validated on every run against 37 externally produced ('playground') vectors pinned in the repository's tests. A mismatch is a KNOWN-FINDING only if refper with a minimal set of RECORDED quirk models reproduces the observed bits exactly; anything else - also inside a known-bad class - is a VIOLATION.",
+   note="Trusted: refper (vcore::refper, ~600 lines, clause references in DESIGN Appendix A). Conformance profile = DESIGN section 4."),
+ "C03": dict(engine="e_uper", category="model_checking", design="5/C03",
+   technique="bounded-exhaustive enumeration of every SEQUENCE/SET shape x every presence pattern on the real generated codecs against refper (presence bits, extension bit, open types) plus the refusal rule",
+   text="All shapes with <=3 (quick: 362 types, SEQUENCE and SET) / <=5 (thorough: 3035 types) components x {mandatory, OPTIONAL, DEFAULT} x marker {none, before first, after i} x all presence patterns (each OPTIONAL absent/present, each DEFAULT equal/not equal, each addition absent/present): bits == refper (one presence bit per OPTIONAL/DEFAULT root component in order, extension bit iff an addition is encoded), reader on reference bits, round trip (absent stays absent, default-equal decodes to the default), and an encoder Err only as ExtensionFieldsInconsistent and only when the first addition is absent while a later one is present.",
+   note="The shapes are compiled through the real generator/macro, so the constants STD_OPTIONAL_FIELDS / EXTENDED_AFTER_FIELD / FIELD_COUNT are the generated ones."),
+ "C06": dict(engine="e_uper", category="exploration", design="5/C06",
+   technique="bounded-exhaustive enumeration of constraint-violating values (one violated constraint each) on the real generated encoders; validity judged on the abstract constraint",
+   text="For every constrained zoo type and every container holding one: integers lb-1, lb-2, lb-2^k, ub+1, ub+2, ub+2^k and the extremes of every Rust integer type; sizes lb-1, 0, ub+1, ub+2, 2ub+1; one illegal character (below / above the alphabet, 2-, 3- and 4-byte scalars, type specific look-alikes) at first / middle / last position of a min-, mid- and max-length string; out-of-range elements and components inside otherwise valid lists, sequences and choices. Non-extensible => Err (never Ok, whatever it decodes to); extensible => Ok, bits == refper (extension form) and round trip.",
+   note="Values the generated Rust type cannot hold are skipped and counted (they cannot reach the encoder)."),
 }
 
 NOT_YET = {
